@@ -233,6 +233,28 @@ def strRemoveI (w : World) (p : Nat) (i : Int) : World × Nat :=
     (w.setStrHdr p r, p)
   else (w, p)
 
+/-! ### network/simpleHTTP.go: the interceptor list of a `SimpleHTTPDef` is a `StreamDef[*Interceptor]` VALUE field.
+    An instance is modelled as a stream cell (the field); `NewSimpleHTTPWithClientAndInterceptors(c, list...)`
+    wraps the caller's slice like `StreamFromArray` does.  The bookkeeping methods replace the field by the
+    header of a persistent Stream result — they overwrite the instance's own cell and nothing else. -/
+
+/-- `AddInterceptor(is...)`: `for each i { self.interceptors = *self.interceptors.Append(i) }` -/
+def httpAdd (w : World) (p : Nat) : List Int → World
+  | [] => w
+  | i :: t =>
+    let r := w.strAppend p [i]
+    httpAdd (r.1.setStrHdr p (r.1.strHdr r.2)) p t
+
+/-- `RemoveInterceptor(is...)`: `for each i { self.interceptors = *self.interceptors.RemoveItem(i) }` -/
+def httpRemove (w : World) (p : Nat) : List Int → World
+  | [] => w
+  | i :: t =>
+    let r := w.strRemoveItem p [i]
+    httpRemove (r.1.setStrHdr p (r.1.strHdr r.2)) p t
+
+/-- `ClearInterceptor()`: `self.interceptors = StreamDef[*Interceptor]{}` -/
+def httpClear (w : World) (p : Nat) : World := w.setStrHdr p Slice.nil
+
 /-! ### Set operations (`MapSetDef` / `SetForInterfaceDef`).  `p` is the receiver cell. -/
 
 /-- `Set(k, v)`, the documented mutator: `(*mapSetSelf)[key] = value`; assignment to a nil map panics -/
